@@ -514,6 +514,9 @@ func (cs *Contracts) parseFile(path, src string) error {
 				return fmt.Errorf("%s:%d: %v", path, ln, err)
 			}
 			cs.Specs[name] = &SpecFunc{Name: name, Params: params, Body: body}
+		case "stable-struct":
+			cs.StableStructs = append(cs.StableStructs, strings.Fields(rest)...)
+			cs.Assumed = append(cs.Assumed, "fields of "+rest+" are not changed by evaluating Lisp code or by opaque callees (values of this type are private to the built-in's activation)")
 		case "pure-method":
 			if cs.PureMethods == nil {
 				cs.PureMethods = map[string]bool{}
